@@ -119,10 +119,10 @@ def run(ctx):
     n = (300 if ctx.quick else 2500) * (3 if ctx.search else 1)
     for _ in range(n):
         if rng.random() < 0.5:
-            a, o, t = valid_configurator(rng, ctx.quick, int_leaf=rng.random() < 0.3)
+            a, o, t = valid_configurator(rng, ctx.quick, int_leaf=rng.random() < 0.3, fix_root_p=0.15)
             names = sorted(leaves_of(t))
             prio = {x: rng.choice([1, -1, 2]) for x in rng.sample(names, min(rng.randint(0, 2), len(names)))}
             do_case(ctx, {"ast": a, "prio": prio})
         else:
-            a, o, t = gen_valid(rng, ctx.quick)
+            a, o, t = gen_valid(rng, ctx.quick, prefix_p=0.15)
             do_case(ctx, {"ast": a})
